@@ -37,7 +37,9 @@ RULE = ('template trees over ConstantPT/TablePT/FunctionPT atoms and AtomicMulti
         'swaps, top-level parameters), family `rebind` (loop index rebound between ForLoopPT and the reader with every '
         'builder feature in between), family `shape` (collapsed single transformed leaf + outer transformation; '
         'wait-pulse-wait), aliasing (`share`: equal sub-trees are one object) and stateful (`reuse`: same objects '
-        'compiled plain / with options / plain again) variants.  Non-trivial = at least 2 nodes and (non-empty effective set or a '
+        'compiled plain / with options / plain again) variants.  Round 5: family `receiver` (every convenience helper '
+        'applied ONCE to a receiver of every template class, asymmetric measurement windows), windows on collapsed composites '
+        'below a reversal.  Non-trivial = at least 2 nodes and (non-empty effective set or a '
         'transformation or a constructor case); distinct = distinct canonical JSON.')
 TRUSTED = [
     'Coq 8.16.1 kernel + vm_compute (no native_compute)',
@@ -607,6 +609,15 @@ def fixed_cases():
     out.append({'kind': 'opt', 'step': '1/2', 'tree': t, 'S': [{'by': 'name', 'name': 'Q'}], 'G': None})
     t = {'k': 'rev', 'id': None, 'sub': {'k': 'seq', 'id': 'Q', 'meas': [], 'subs': [A('1', {'A': '1'}), tb]}}
     out.append({'kind': 'opt', 'step': '1/2', 'tree': t, 'S': [{'by': 'name', 'name': 'Q'}], 'G': None})
+    # round 5 (classify audit): INSIDE the input class of finding collapsed_inside_reversal, measurement windows on the
+    # collapsed composite, on its atoms and on the level it is appended to: the finding only concerns voltages, so a
+    # change that loses / misplaces windows there must still be reported (hand mutation A)
+    inner = {'k': 'seq', 'id': 'Q', 'meas': [['m', '0', '1']], 'subs': [A('1', {'A': '1'}, meas=[['n', '1/2', '1/2']]), tb]}
+    for body in ({'k': 'seq', 'id': None, 'meas': [['n', '0', '1/2']], 'subs': [inner, A('1', {'A': '7'}, meas=[['m', '1/2', '1/2']])]},
+                 {'k': 'rep', 'id': None, 'meas': [['k', '1/2', '1']], 'n': 2, 'body': inner}):
+        for G in (None, {'k': 'offset', 'm': {'A': '1'}}):
+            out.append({'kind': 'opt', 'step': '1/2', 'tree': {'k': 'rev', 'id': None, 'sub': body},
+                        'S': [{'by': 'name', 'name': 'Q'}], 'G': G})
     t = {'k': 'seq', 'id': None, 'meas': [['m', '0', '1']], 'subs': [
         A('1', {'A': '1'}, meas=[['n', '0', '1/2']]),
         {'k': 'rep', 'id': 'R', 'meas': [['m', '0', '1']], 'n': 2,
@@ -972,6 +983,133 @@ def gen_ctor_cases(rng, n):
     return cases
 
 
+# ---- every convenience helper applied ONCE to a receiver of EVERY template class ---------------------------------------
+RECEIVER_CLASSES = ['const', 'table', 'func', 'amc', 'seq', 'rep', 'for', 'map', 'par', 'arith', 'rev']
+RECEIVER_HELPERS = ['rev1', 'rep', 'pow', 'map', 'par', 'iter', 'pad', 'matmul', 'rmatmul2', 'appended', 'arithop',
+                    'paratomic']
+
+
+def receiver(rng, g, cls, named, final_hold=True):
+    """a template of class `cls` whose measurement windows are NOT symmetric about the middle of the pulse (declared on
+    the node itself where the class can declare windows, and on the atoms below) and whose first and last voltages
+    differ; `named`: the receiver carries an identifier (the merging constructors look at that)"""
+    one, two = g.tm(1), g.tm(2)
+    ident = 'rcv' if named else None
+    v = lambda: _fr(g.val())
+
+    def const(chans=('A',), d=None, meas=None, id=None):
+        return {'k': 'const', 'id': id, 'dur': g.tm(d or rng.choice([2, 3])), 'vals': {c: v() for c in chans},
+                'meas': [['m', g.tm(0), one]] if meas is None else meas}
+
+    def table(ch='A', id=None):
+        a = g.val()
+        return {'k': 'table', 'id': id, 'entries': {ch: [[g.tm(0), _fr(a), 'hold'],
+                                                         [two, _fr(a + rng.choice([1, -1, 2])), rng.choice(['linear', 'hold', 'jump'] if final_hold else ['linear', 'jump'])]]},
+                'meas': [['n', one, one]]}
+
+    def func(id=None):
+        return {'k': 'func', 'id': id, 'ch': 'A', 'dur': two, 'a': _fr(F(rng.choice([1, -1, 2])) / g.step), 'b': v(),
+                'meas': [['m', g.tm(0), one]]}
+    if cls == 'const':
+        return const(id=ident)
+    if cls == 'table':
+        return table(id=ident)
+    if cls == 'func':
+        return func(id=ident)
+    if cls == 'amc':
+        return {'k': 'amc', 'id': ident, 'meas': [['k', one, one]], 'subs': [func(), const(('B',), 2)]}
+    if cls == 'seq':
+        return {'k': 'seq', 'id': ident, 'meas': [['m', one, one]], 'subs': [const(), table()]}
+    if cls == 'rep':
+        return {'k': 'rep', 'id': ident, 'meas': [['m', g.tm(0), one]], 'n': 2, 'body': table()}
+    if cls == 'for':
+        body = const(d=2)
+        body['vals']['A'] = [body['vals']['A'], 'j', '1']
+        return {'k': 'for', 'id': ident, 'meas': [['n', one, one]], 'idx': 'j', 'range': rng.choice([[0, 2, 1], [2, 0, -1]]),
+                'body': body}
+    if cls == 'map':
+        sub = rng.choice([const, table])()
+        return {'k': 'map', 'id': ident, 'chmap': {'A': 'X'}, 'mmap': {sub['meas'][0][0]: 'k'}, 'sub': sub}
+    if cls == 'par':
+        return {'k': 'par', 'id': ident, 'ov': {'B': v()}, 'sub': table()}
+    if cls == 'arith':
+        return {'k': 'arith', 'id': ident, 'op': '+', 'side': 'l', 'scalar': _fr(g.val() or 1),
+                'sub': {'k': 'seq', 'id': None, 'meas': [['m', g.tm(0), one]], 'subs': [table(), const()]}}
+    if cls == 'rev':
+        return {'k': 'rev', 'id': ident, 'sub': {'k': 'seq', 'id': None, 'meas': [['m', g.tm(0), one]],
+                                                 'subs': [const(), table()]}}
+    raise ValueError(cls)
+
+
+def gen_receiver_cases(rng, exhaustive=False):
+    """class `a helper overridden for ONE template class` (seed C05-7: ConstantPT.with_time_reversal returned self and
+    lost the mirroring of its windows): the other constructor cases only call a helper on the class where it merges
+    (with_repetition on RepetitionPTs, with_mapping on MappingPTs, pad_to on constant atoms ...) and reverse TWICE.  Here
+    every helper is applied once to a receiver of every class - with / without identifier, asymmetric measurement
+    windows, different first and last voltages - and compared with the explicit nesting."""
+    cases = []
+    for cls in RECEIVER_CLASSES:
+        for helper in RECEIVER_HELPERS:
+            for named in ([False, True] if exhaustive else [rng.random() < 0.4]):
+                for _ in range(4):
+                    step = rng.choice(STEPS)
+                    g = Gen(rng, step)
+                    # (pad_to: a TablePT that ENDS on a hold segment reports the value of its last entry as final value, which
+                    #  it never plays - a convention of the code; the tie reads final values off the played meaning, so
+                    #  such tables are not padded here)
+                    # ((unnamed MappingPT, mapping) @ x: the MappingPT class itself merges the two mappings when the wrapper is
+                    #  built - with_mapping's merge, covered by helper `map`; the tie has no operand for it here)
+                    r = receiver(rng, g, cls, named or (cls, helper) == ('map', 'rmatmul2'), final_hold=helper != 'pad')
+                    chans = out_channels(r)
+                    other = lambda: {'k': 'const', 'id': None, 'dur': g.tm(rng.choice([1, 2])),
+                                     'vals': {ch: _fr(g.val()) for ch in chans}, 'meas': [['k', g.tm(0), g.tm(1)]]}
+                    c = {'kind': 'ctor', 'step': step, 'op': helper, 'args': [r], 'family': 'receiver', 'receiver': cls}
+                    if helper in ('rep', 'pow'):
+                        c['n'] = rng.choice([0, 1, 2, 3])
+                    elif helper == 'map':
+                        names = sorted(meas_names(r))
+                        c['chmap'] = {chans[0]: 'Z'}
+                        c['mmap'] = {names[0]: rng.choice(['m', 'n', 'k'])} if names and rng.random() < 0.7 else {}
+                    elif helper == 'par':
+                        c['ov'] = {rng.choice(chans + ['Z']): _fr(g.val())}
+                    elif helper == 'iter':
+                        if not force_idx(r, 'i', '1/2') or not uses_idx(r, 'i'):
+                            continue
+                        c['range'] = rng.choice([[0, 2, 1], [2, 0, -1], [0, 3, 2]])
+                    elif helper == 'pad':
+                        if edge_vals(r) is None:
+                            break                               # a TimeReversalPT defines no final values
+                        c['extra'] = rng.choice([1, 2])
+                        if rng.random() < 0.3:
+                            c['pad_mode'] = 'kwargs'
+                    elif helper == 'matmul':
+                        c['args'] = [r, other()] if rng.random() < 0.5 else [other(), r]
+                    elif helper == 'rmatmul2':
+                        # (receiver, channel mapping) @ template
+                        c['op'] = 'rmatmul'
+                        outer = ['C', 'Y'][:len(chans)]
+                        c['chmap'] = dict(zip(chans, outer))
+                        c['args'] = [r, {'k': 'const', 'id': None, 'dur': g.tm(1), 'vals': {ch: _fr(g.val()) for ch in outer},
+                                         'meas': []}]
+                    elif helper == 'appended':
+                        c['args'] = [r, other(), other()] if rng.random() < 0.5 else [other(), r]
+                    elif helper == 'arithop':
+                        o = rng.choice('+-*/')
+                        c['aop'] = o
+                        c['side'] = 'l' if o == '/' else rng.choice('lr')
+                        c['scalar'] = _fr(rng.choice([2, -1, F(1, 2)])) if o in '*/' else _fr(g.val() or 1)
+                    elif helper == 'paratomic':
+                        if cls not in ATOMS:
+                            break
+                        c['args'] = [r, {'k': 'const', 'id': None, 'dur': _fr(est_ticks(r, step) * F(step)),
+                                         'vals': {'C': _fr(g.val())}, 'meas': [['k', g.tm(1), g.tm(1)]]}]
+                    if not times_ok(ctor_explicit(c), step, {}) or sum(est_ticks(a, step, {'i': 0}) for a in c['args']) > 40:
+                        continue
+                    cases.append(c)
+                    break
+    return cases
+
+
 def ctor_explicit(c):
     """JSON tree of the explicit nesting a constructor call replaces"""
     op = c['op']
@@ -1000,14 +1138,18 @@ def ctor_explicit(c):
         return {'k': 'par', 'id': None, 'ov': dict(c['ov']), 'sub': a[0]}
     if op == 'rev2':
         return {'k': 'rev', 'id': None, 'sub': {'k': 'rev', 'id': 'first' if c['named'] else None, 'sub': a[0]}}
+    if op == 'rev1':
+        return {'k': 'rev', 'id': None, 'sub': a[0]}
     if op == 'iter':
         return {'k': 'for', 'id': None, 'meas': [], 'idx': 'i', 'range': list(c['range']), 'body': a[0]}
     if op == 'pad':
         inner = a[0]
         if c['extra'] == 0:
             return inner
-        last = inner if inner['k'] == 'const' else inner['subs'][-1]
-        pad = {'k': 'const', 'id': None, 'dur': _fr(F(c['extra']) * F(c['step'])), 'vals': dict(last['vals']), 'meas': []}
+        # the final values of the operand, from its description alone (edge_vals)
+        fv = edge_vals(inner)
+        pad = {'k': 'const', 'id': None, 'dur': _fr(F(c['extra']) * F(c['step'])),
+               'vals': {ch: aff_json(v) for ch, v in fv.items()}, 'meas': []}
         return {'k': 'seq', 'id': 'padded' if c.get('pad_mode') == 'kwargs' else None, 'meas': [], 'subs': [inner, pad]}
     raise ValueError(op)
 
@@ -1048,6 +1190,8 @@ def ctor_call(c, a=None):
     if op == 'rev2':
         first = TimeReversalPT(a[0], identifier='first') if c['named'] else a[0].with_time_reversal()
         return first.with_time_reversal()
+    if op == 'rev1':
+        return a[0].with_time_reversal()
     if op == 'iter':
         return a[0].with_iteration('i', tuple(c['range']))
     if op == 'pad':
@@ -1644,6 +1788,7 @@ def gen_cases(rng, tier, ctx):
         cases += gen_rebind_cases(rng, 80)
         cases += gen_shape_cases(rng, 100)
         cases += gen_ctor_cases(rng, 240)
+        cases += gen_receiver_cases(rng)
         cases += gen_script_cases(rng, 130)
     else:
         cases += gen_opt_cases(rng, 900, 4, 4)
@@ -1652,6 +1797,9 @@ def gen_cases(rng, tier, ctx):
         cases += gen_rebind_cases(rng, 400)
         cases += gen_shape_cases(rng, 800)
         cases += gen_ctor_cases(rng, 1200)
+        cases += gen_receiver_cases(rng, exhaustive=True)
+        cases += gen_receiver_cases(rng)
+        cases += gen_receiver_cases(rng)
         cases += gen_script_cases(rng, 200, exhaustive=True)
         cases += gen_script_cases(rng, 500)
     return cases
@@ -1911,6 +2059,8 @@ def g_cop(case, pr):
         return '(KRep %s %s)' % (vlib.gnat(case['n']), pr.pt(a[0]))
     if op == 'rev2':
         return '(KRev2 %s %s)' % (gbool(case['named']), pr.pt(a[0]))
+    if op == 'rev1':
+        return '(KRev1 %s)' % pr.pt(a[0])
     if op == 'map':
         ren = glist(lambda ab: '(%s, %s)' % (gN(CH[ab[0]]), gN(CH[ab[1]])), sorted(case['chmap'].items()))
         mren = glist(lambda ab: '(%s, %s)' % (gN(MN[ab[0]]), gN(MN[ab[1]])), sorted((case.get('mmap') or {}).items()))
@@ -1971,6 +2121,8 @@ def histogram_keys(case, obs):
             keys.append('opt-has-NaN')
     else:
         keys.append('ctor:' + case['op'])
+        if case.get('family') == 'receiver':
+            keys += ['family:receiver', 'receiver:' + case['receiver']]
         if case.get('pad_mode'):
             keys.append('ctor:pad-' + case['pad_mode'])
         if case.get('positional'):
@@ -2080,7 +2232,109 @@ def py_spec(case, obs):
     return merged_values_lost(case, obs)
 
 
+def rev_spans(tree, eff, step, env):
+    """[begin, end) in ticks of every played TimeReversalPT that has a collapsed COMPOSITE node strictly below its inner
+    template (where finding collapsed_inside_reversal shows), read off the description"""
+    step = F(step)
+    bad = []
+    for p in eff:
+        if I.node_at(tree, p)['k'] in ATOMS:
+            continue
+        for i in range(len(p) - 1):
+            if I.node_at(tree, p[:i])['k'] == 'rev':
+                bad.append(tuple(p[:i]))
+    bad = set(bad)
+    spans = []
+
+    def go(node, path, start, env):
+        k = node['k']
+        if k in ATOMS:
+            return max(F(0), est_ticks(node, step, env))
+        if k == 'seq':
+            t = start
+            for i, c in enumerate(node['subs']):
+                t += go(c, path + (i,), t, env)
+            return t - start
+        if k == 'rep':
+            t = start
+            for _ in range(node['n']):
+                t += go(node['body'], path + (0,), t, env)
+            return t - start
+        if k == 'for':
+            t = start
+            for v in range(*node['range']):
+                t += go(node['body'], path + (0,), t, dict(env, **{node['idx']: F(v)}))
+            return t - start
+        if k == 'map':
+            return go(node['sub'], path + (0,), start, I.map_env(node, env))
+        if k == 'rev':
+            if path in bad:
+                d = max(F(0), est_ticks(node['sub'], step, env))
+                spans.append((start, start + d))
+                return d
+        return go(node['sub'], path + (0,), start, env)
+    go(tree, (), F(0), dict(env or {}))
+    return spans
+
+
+def par_channels(tree, top=None):
+    """names (as seen at the top) of the channels some ParallelChannelPT of the tree overwrites"""
+    out = set()
+
+    def go(node, ren):
+        if node['k'] == 'par':
+            out.update(ren(c) for c in node['ov'])
+        if node['k'] == 'map':
+            cm = dict(node.get('chmap') or {})
+            inner = ren
+            ren = lambda c, cm=cm, inner=inner: inner(cm.get(c, c))
+        if node['k'] == 'amc':
+            return
+        for ch in I.children(node):
+            go(ch, ren)
+    top = dict(top or {})
+    go(tree, lambda c: top.get(c, c))
+    return out
+
+
+def has_linear(G):
+    return bool(G) and (G['k'] == 'linear' or G['k'] == 'chain' and any(has_linear(t) for t in G['ts']))
+
+
+def opt_diffs(case, obs):
+    """-> None when duration or windows of the option run are not those of the plain run (no known finding touches
+    them) or T(plain) is undefined, 'channels' when the channel set is not that of T(plain), else the list of
+    (tick, channel) where the option run does not play T(plain)"""
+    from props import c05_search
+    plain, opt = obs['plain'], obs['opt']
+    for o in (plain, opt):
+        if o.get('none') or o.get('raise'):
+            return None
+    if F(plain['dur']) != F(opt['dur']) or plain['windows'] != opt['windows']:
+        return None
+    out = []
+    n = len(next(iter(plain['samples'].values()))) if plain['samples'] else 0
+    for k in range(n):
+        data = {c: c05_search._val(plain['samples'][c][k]) for c in plain['chans']}
+        try:
+            want = c05_search.apply_trafo(case['G'], data) if case.get('G') else data
+        except KeyError:
+            return None
+        if sorted(want) != sorted(opt['chans']):
+            return 'channels'
+        for c, v in want.items():
+            got = c05_search._val(opt['samples'][c][k])
+            if got is None or got != v:
+                out.append((k, c))
+    return out
+
+
 def classify(case, obs):
+    """id of the known finding a property-violating case belongs to.  Round 5: the predicates look at the OBSERVATION
+    too - no known finding changes the duration, the measurement windows or (without a raise) the channel set;
+    collapsed_inside_reversal only shows while a reversed part with a collapsed composite is played;
+    parallel_channel_before_global_transformation only on the channels a ParallelChannelPT overwrites (any channel when
+    a LinearTransformation can mix them).  Anything else in the same input class is a violation of its own."""
     if case['kind'] == 'opt' and str(obs.get('crash', '')).startswith('get_sampled(') and \
             under_reversal(case['tree'], effective_paths(case['tree'], case['S'])):
         # the same unwritten sample (t = duration of the collapsed Sequence/RepetitionWaveform inside ReversedWaveform):
@@ -2088,22 +2342,56 @@ def classify(case, obs):
         return 'collapsed_inside_reversal'
     if 'crash' in obs or 'hang' in obs:
         return None
-    if case['kind'] == 'opt' and obs['opt'].get('raise') == 'KeyError' and linear_after_parallel(case['G']):
-        return 'linear_after_parallel_partial_inputs'
-    if case['kind'] == 'opt' and obs['opt'].get('raise') == 'KeyError' and linear_inputs_absent(case):
-        return 'linear_inputs_absent'
     if case['kind'] == 'opt':
         eff = effective_paths(case['tree'], case['S'])
+        par = par_gets_transformation(case['tree'], case['G']) and (eff or case['G'] is not None)
+        if obs['opt'].get('raise'):
+            if obs['plain'].get('raise') or obs['plain'].get('none'):
+                return None
+            if obs['opt'].get('raise') == 'KeyError' and linear_after_parallel(case['G']):
+                return 'linear_after_parallel_partial_inputs'
+            if obs['opt'].get('raise') == 'KeyError' and linear_inputs_absent(case):
+                return 'linear_inputs_absent'
+            # a LinearTransformation that needs the channel a ParallelChannelPT adds later / leaves on different channels
+            if par and (has_linear(case['G']) or obs['opt'].get('raise') == 'ChannelSetsDiffer'):
+                return 'parallel_channel_before_global_transformation'
+            return None
+        diffs = opt_diffs(case, obs)
+        if diffs == 'channels':
+            # only a LinearTransformation meeting a ParallelChannelPT changes the channel set (the overwrite re-adds a
+            # consumed input / the inputs are not there yet and everything is forwarded)
+            return 'parallel_channel_before_global_transformation' if par and has_linear(case['G']) else None
+        if not diffs:
+            return None            # duration / windows wrong (or nothing differs): not a known finding
+        found = None
         if under_reversal(case['tree'], eff):
-            return 'collapsed_inside_reversal'
-        if par_gets_transformation(case['tree'], case['G']) and (eff or case['G'] is not None):
-            return 'parallel_channel_before_global_transformation'
-        return None
+            env = {k: F(v) for k, v in (case.get('params') or {}).items()}
+            spans = rev_spans(case['tree'], eff, case['step'], env)
+            rest = [(k, c) for k, c in diffs if not any(a <= k < b for a, b in spans)]
+            if len(rest) < len(diffs):
+                found, diffs = 'collapsed_inside_reversal', rest
+        if diffs and par:
+            cp = case.get('cp') or {}
+            chans = par_channels(case['tree'], cp.get('chmap'))
+            rest = diffs if not (has_linear(case['G']) or chans) else \
+                [] if has_linear(case['G']) else [(k, c) for k, c in diffs if c not in chans]
+            if len(rest) < len(diffs):
+                found, diffs = found or 'parallel_channel_before_global_transformation', rest
+        return found if not diffs else None
     if merged_values_lost(case, obs):
         return None                      # not the known inner-wins defect: the merge itself lost the new value
     if case['op'] == 'par' and case['args'][0]['k'] == 'par' or \
             par_gets_transformation(ctor_explicit(case), None) or par_gets_transformation(obs['built'], None):
-        return 'parallel_channel_before_global_transformation'
+        # the inner-wins defect only changes the voltages of overwritten channels
+        o1, o2 = obs['o1'], obs['o2']
+        if any(o.get('none') or o.get('raise') for o in (o1, o2)):
+            return None
+        if F(o1['dur']) != F(o2['dur']) or o1['windows'] != o2['windows'] or o1['chans'] != o2['chans']:
+            return None
+        chans = par_channels(ctor_explicit(case)) | par_channels(obs['built'])
+        if all([F(x) if x is not None else None for x in o1['samples'][c]] ==
+               [F(x) if x is not None else None for x in o2['samples'][c]] for c in o1['chans'] if c not in chans):
+            return 'parallel_channel_before_global_transformation'
     return None
 
 
@@ -2124,10 +2412,13 @@ MANIFEST = {
                   'global_transformation (builder, to_waveform, waveform sampling, transformation chaining, KeyError as '
                   'explicit result) it is proved for ALL template trees, all sets of collapsed nodes and all '
                   'transformation chains that collapsing changes neither voltages nor duration nor the multiset of '
-                  'measurement windows, that a global transformation acts pointwise, and that compiled programs are '
-                  'well-formed - under two executable guards that exclude the two confirmed defect classes, which are '
-                  'refuted on witnesses (the reversal clause only excludes collapsed composite templates: collapsing an '
-                  'atom is proved to be the identity). Parameters are inside the model: the code\'s scope threading '
+                  'measurement windows, that a global transformation acts pointwise on the voltages, and that compiled '
+                  'programs are well-formed - under two executable guards that exclude the two confirmed defect classes '
+                  '(the guards are somewhat wider than the defects: syntactic channel test, every collapsed composite below '
+                  'a reversal), which are refuted on witnesses (collapsing an atom is proved to be the identity). That a '
+                  'global transformation changes neither the measurement windows nor the duration is proved without any '
+                  'guard. The combined statement (set S and transformation T against the plain run) is not one theorem: it '
+                  'follows by chaining the two under both guards. Parameters are inside the model: the code\'s scope threading '
                   '(MappedScope, RangeScope, the builder\'s frame stack) is proved equal to compiling the instantiated '
                   'template for every frame stack. The constant fold of a transformed waveform is proved pointwise '
                   'correct with the keys Transformation.__call__ returns (a LinearTransformation none of whose inputs '
@@ -2144,7 +2435,9 @@ MANIFEST = {
     'technique': 'Coq proof by induction over template trees (frame lemma on builder states, scope-threading refinement) '
                  '+ correspondence check on generated parametrised trees x option subsets (incl. name-coincidence, '
                  'aliasing, stateful and order-of-operations-on-shared-objects families, create_program argument '
-                 'variants) + structural tie of the constructor functions to the templates the real constructors return '
-                 '+ one independent Python oracle for with_parallel_channels',
+                 'variants, every helper applied once to a receiver of every template class) + structural tie of the '
+                 'constructor functions to the templates the real constructors return + one independent Python oracle for '
+                 'with_parallel_channels; known-finding predicates also read the observation (duration, windows, where and '
+                 'on which channels the voltages differ)',
     'design_ref': 'DESIGN.md §5 C05',
 }
